@@ -78,6 +78,9 @@ def plan(tier, ctx):
     for n in ([2, 3, 4, 5, 6, 7] if tier == "quick" else [2, 3, 4, 5, 6, 7, 8, 9]):
         qs.append(_Q("x86/build_heap/n%d" % n, "harness.C18.heap_x86:heap_query", dict(sizes=[n]), core=(n == 4), family="x86/build_heap",
                      weight=3 ** n / 10.0, timeout=1800))
+    for n in ([2, 3, 4] if tier == "quick" else [2, 3, 4, 5]):
+        qs.append(_Q("x86/build_huff_tree/n%d" % n, "harness.C18.heap_x86:tree_query", dict(sizes=[n]), core=(n == 3), family="x86/build_huff_tree",
+                     weight=8 ** n / 50.0, timeout=3000))
     return Plan(
         "C18", "model_checking", qs,
         functions_encoded=["rl_encode", "write_rl", "create_packed_len_table", "create_packed_dist_table", "create_code_tables",
